@@ -1,22 +1,7 @@
 #![no_main]
-//! libFuzzer target for C07: bytes -> (modulus, operands, operation program | double-width value).
+//! libFuzzer target fz_mont: bytes -> case (see harness/src/fuzzdec.rs) -> the same oracle as the proptest side.
 use libfuzzer_sys::fuzz_target;
 
-static HOOK: std::sync::Once = std::sync::Once::new();
-
 fuzz_target!(|data: &[u8]| {
-    // wrap libFuzzer's abort-on-panic hook: panics caught by the oracle (guard/catch) stay silent
-    HOOK.call_once(yqv::engine::install_panic_hook);
-    let mut l = yqv::engine::Local::new();
-    let r = match yqv::fuzzdec::mont_case(data) {
-        Some(yqv::fuzzdec::MontCase::Ops(c)) => yqv::props::c07::check_ops(&c, &mut l),
-        Some(yqv::fuzzdec::MontCase::Redc(c)) => yqv::props::c07::check_redc(&c, &mut l),
-        Some(yqv::fuzzdec::MontCase::Mg64(c)) => yqv::props::c07::check_mg64(&c, &mut l),
-        None => Ok(()),
-    };
-    if let Err(f) = r {
-        if !f.class.starts_with("HARNESS|") && !f.class.starts_with("PROBE|") {
-            panic!("YQV-FUZZ-VIOLATION {} :: {}", f.sig(), f.what);
-        }
-    }
+    yqv::fuzzdec::run_target("fz_mont", data);
 });
